@@ -1051,3 +1051,24 @@ def sole_result(fn, **kw):
     from .summary import summarize
     vals = {ps.retval for ps in summarize(fn, **kw) if ps.term == "return"}
     return vals.pop() if len(vals) == 1 else None
+
+
+# ---------------------------------------------------------------------------
+# which attributes of its own instance a method stores: plain assignment or
+# object.__setattr__(self, "<name>", ...)
+
+def self_attrs_written(fn) -> set:
+    me = fn.args.args[0].arg if fn.args.args else None
+    out = set()
+    for a in ast.walk(fn):
+        if isinstance(a, ast.Attribute) and isinstance(a.ctx, ast.Store) and \
+                isinstance(a.value, ast.Name) and a.value.id == me:
+            out.add(a.attr)
+        if isinstance(a, ast.Call) and isinstance(a.func, ast.Attribute) and \
+                a.func.attr == "__setattr__" and len(a.args) >= 2 and \
+                isinstance(a.args[0], ast.Name) and a.args[0].id == me:
+            if not isinstance(a.args[1], ast.Constant):
+                raise AnalysisError("attribute name written by a legacy "
+                                    "__init__ is not a literal")
+            out.add(a.args[1].value)
+    return out
